@@ -81,7 +81,7 @@ PROPS = {
     ),
     "C16": dict(
         cases_mod="CasesCron", check_fn="check_C16",
-        rule="expressions generated from the documented grammar (every item form, values over each field's range incl. weekday 7, names in random letter case, leading zeros, lists of 1-3 items, separators space/tab/NBSP/EM SPACE, leading/trailing white space) plus 3-6 random single-edit mutations (delete / insert / substitute over digits * , - / + letters, white space, multi-byte characters) of each, double mutations, and a fixed list of historical edge cases. Observed: Ok/Err and, through Debug, the five value sets (sorted). Non-trivial: every case.",
+        rule="the std tables restated in Text.v validated over all Unicode scalar values (char::is_whitespace; to_lowercase wherever ASCII is involved); expressions generated from the documented grammar (every item form, values over each field's range incl. weekday 7, names in random letter case, leading zeros, lists of 1-3 items, separators space/tab/NBSP/EM SPACE, leading/trailing white space) plus 3-6 random single-edit mutations (delete / insert / substitute over digits * , - / + letters, white space, multi-byte characters) of each, double mutations, and a fixed list of historical edge cases. Observed: Ok/Err and, through Debug, the five value sets (sorted). Non-trivial: every case.",
         explanation="Theorems C16_* hold for every text; figures describe the differential run.",
         trusted_base=TB_COMMON + ["hook H2-free: value sets are read from the derived Debug output of CronSchedule"], assumptions=ASSUME_COMMON,
     ),
